@@ -6,6 +6,11 @@
 extern crate alloc;
 
 mod lender;
+#[cfg(aranya_core_verif)]
+#[allow(missing_docs, unreachable_pub)]
+pub mod verif_api {
+    pub use super::lender::{Lender, Loan};
+}
 
 use alloc::{collections::btree_map::BTreeMap, sync::Arc};
 
